@@ -182,6 +182,7 @@ fn exec(c: &CloseCase, env: &Env) -> Outcome {
         dead_bytes: 200,
         small_file: u64::MAX,
         sync_always: false,
+        sync_interval_ms: 0,
     };
     let merge_extra = serde_json::json!({
         "policy": if c.policy_always { "always" } else { "never" },
